@@ -255,8 +255,10 @@ def write_evidence(check, tier, seed, stats, wall, violations, notes):
 def run_check(check, tier, seed, shard=None, out=None):
     t0 = time.time()
     if shard is not None:
+        check.shard = (shard, NSHARDS)
         run_shard(check, tier, seed * 1000 + shard, check.thorough_examples, out)
         return 0
+    check.shard = (0, 1)
     notes = known_finding_lines(check)
     for line in notes:
         print(line, flush=True)
